@@ -338,11 +338,26 @@ void DOMElementImpl::setAttributeNS(const XMLCh *fNamespaceURI,
     if (index < 0)
         throw DOMException(DOMException::NAMESPACE_ERR, 0, GetDOMNodeMemoryManager);
 
-    DOMAttr* newAttr = getAttributeNodeNS(fNamespaceURI, qualifiedName+index);
+    // index is the position of the colon, or 0 if there is none
+    const XMLCh* localName = (index == 0) ? qualifiedName : qualifiedName+index+1;
+    DOMAttr* newAttr = getAttributeNodeNS(fNamespaceURI, localName);
     if (!newAttr)
     {
         newAttr = fParent.fOwnerDocument->createAttributeNS(fNamespaceURI, qualifiedName);
         fAttributes->setNamedItemNS(newAttr);
+    }
+    else if (index > 0)
+    {
+        // The attribute is there already, but this qualified name has not
+        // been through the checks that createAttributeNS makes
+        DOMDocumentImpl* doc = (DOMDocumentImpl*) fParent.fOwnerDocument;
+        if (!doc->isXMLName(qualifiedName))
+            throw DOMException(DOMException::INVALID_CHARACTER_ERR, 0, GetDOMNodeMemoryManager);
+
+        // throws NAMESPACE_ERR if the prefix cannot go with the namespace
+        DOMNodeImpl::mapPrefix(doc->getPooledNString(qualifiedName, index),
+                               (!fNamespaceURI || !*fNamespaceURI) ? 0 : fNamespaceURI,
+                               DOMNode::ATTRIBUTE_NODE);
     }
 
     newAttr->setNodeValue(fValue);
